@@ -7,6 +7,7 @@
 //!
 //! Request lines (answered by the Lean model `model_C18`, see Driver/C18.lean):
 //!   `sched map|iter <v> <n>` / `sched apply <v> <u> <n>`  → observed active lanes per closure call
+//!   `fold <kind> <v> <op> <init> <xs>`                    → lanes of the final accumulator of Iter::fold etc.
 //!   `mask <v> <n>` / `bmask <v> <n>`                       → `first_n_mask(n)` lanes
 //!   `writer <len> <ops…>`                                  → SliceWriter state or `panic`
 //!   `row|bin|un|lay <ty> <op> …`                           → integer lane results
@@ -1718,6 +1719,321 @@ fn vecmath_cases(out: &mut Out, rng: &mut Rng, cases: usize) {
     }
 }
 
+
+// ---------------------------------------------------------------------------------------------
+// Fold skeletons: Iter::fold / fold_unroll / fold_n / fold_n_unroll and the vecmath reductions
+// ---------------------------------------------------------------------------------------------
+
+trait FoldTy: GetNumOps + Copy + PartialOrd + PartialEq + std::fmt::Debug + 'static {
+    const NAME: &'static str;
+    const MAXV: Self;
+    const MINV: Self;
+    fn from_i(x: i64) -> Self;
+    fn add(self, o: Self) -> Self;
+    fn show(self) -> String;
+}
+impl FoldTy for i32 {
+    const NAME: &'static str = "i32";
+    const MAXV: i32 = i32::MAX;
+    const MINV: i32 = i32::MIN;
+    fn from_i(x: i64) -> i32 {
+        x as i32
+    }
+    fn add(self, o: i32) -> i32 {
+        self.wrapping_add(o)
+    }
+    fn show(self) -> String {
+        self.to_string()
+    }
+}
+impl FoldTy for f32 {
+    const NAME: &'static str = "f32";
+    const MAXV: f32 = f32::MAX;
+    const MINV: f32 = f32::MIN;
+    fn from_i(x: i64) -> f32 {
+        x as f32 * 0.5
+    }
+    fn add(self, o: f32) -> f32 {
+        self + o
+    }
+    fn show(self) -> String {
+        format!("{:?}", self)
+    }
+}
+fn smin<T: FoldTy>(a: T, b: T) -> T {
+    if b < a {
+        b
+    } else {
+        a
+    }
+}
+fn smax<T: FoldTy>(a: T, b: T) -> T {
+    if b > a {
+        b
+    } else {
+        a
+    }
+}
+fn sop<T: FoldTy>(op: &str, a: T, b: T) -> T {
+    match op {
+        "sum" => a.add(b),
+        "min" => smin(a, b),
+        _ => smax(a, b),
+    }
+}
+
+struct FoldCase<'a, T: FoldTy> {
+    kind: &'static str,
+    op: &'static str,
+    xs: &'a [T],
+    init: T,
+    /// final accumulator register(s): one for fold/unroll, two (min, max) for the `n` kinds
+    regs: &'a mut Vec<Vec<T>>,
+}
+impl<T: FoldTy> SimdOp for FoldCase<'_, T> {
+    type Output = ();
+    #[inline(always)]
+    fn eval<I: Isa>(self, isa: I) {
+        let ops = T::num_ops(isa);
+        let op = self.op;
+        let init = ops.splat(self.init);
+        let f = |a, x| match op {
+            "sum" => ops.add(a, x),
+            "min" => ops.min(a, x),
+            _ => ops.max(a, x),
+        };
+        let mm0 = [ops.splat(T::MAXV), ops.splat(T::MINV)];
+        let step = |[mn, mx]: [_; 2], x| [ops.min(mn, x), ops.max(mx, x)];
+        let merge = |[a, b]: [_; 2], [c, d]: [_; 2]| [ops.min(a, c), ops.max(b, d)];
+        let it = self.xs.simd_iter(ops);
+        let regs = self.regs;
+        let mut push = |s: <T as rten_simd::ops::GetSimd>::Simd<I>| regs.push(s.to_array().as_ref().to_vec());
+        match self.kind {
+            "fold" => push(it.fold(init, f)),
+            "unroll2" => push(it.fold_unroll::<2>(init, f, f)),
+            "unroll4" => push(it.fold_unroll::<4>(init, f, f)),
+            "foldn" => {
+                let [a, b] = it.fold_n(mm0, step);
+                push(a);
+                push(b);
+            }
+            "nunroll2" => {
+                let [a, b] = it.fold_n_unroll::<2, 2>(mm0, step, merge);
+                push(a);
+                push(b);
+            }
+            _ => {
+                let [a, b] = it.fold_n_unroll::<2, 4>(mm0, step, merge);
+                push(a);
+                push(b);
+            }
+        }
+    }
+}
+
+fn fold_data<T: FoldTy>(rng: &mut Rng, n: usize, regime: usize) -> Vec<T> {
+    (0..n)
+        .map(|_| {
+            let m = 1 + rng.below(100) as i64;
+            T::from_i(match regime {
+                0 => m,
+                1 => -m,
+                _ => {
+                    if rng.chance(1, 2) {
+                        m
+                    } else {
+                        -m
+                    }
+                }
+            })
+        })
+        .collect()
+}
+
+fn fold_cases<T: FoldTy>(out: &mut Out, rng: &mut Rng, model: bool) {
+    const REG: [&str; 3] = ["pos", "neg", "mixed"];
+    for w in 0..3 {
+        if !isa_available(w) {
+            continue;
+        }
+        let v = lanes_of::<T>(w);
+        for kind in ["fold", "unroll2", "unroll4", "foldn", "nunroll2", "nunroll4"] {
+            let pair = kind.contains('n') && kind != "unroll2" && kind != "unroll4" && kind != "fold";
+            let ops: &[&str] = if pair { &["minmax"] } else { &["sum", "min", "max"] };
+            let nmax = if kind.ends_with('4') { 9 * v + 3 } else if kind.ends_with('2') { 5 * v + 3 } else { 4 * v + 3 };
+            for &op in ops {
+                for regime in 0..3 {
+                    for n in 0..=nmax {
+                        let xs = fold_data::<T>(rng, n, regime);
+                        // neutral start value; the plain fold is also run from a non-neutral one
+                        let init = match op {
+                            "sum" => T::from_i(if kind == "fold" && n % 2 == 1 { 14 } else { 0 }),
+                            "min" => {
+                                if kind == "fold" && n % 2 == 1 {
+                                    T::from_i(-40)
+                                } else {
+                                    T::MAXV
+                                }
+                            }
+                            _ => {
+                                if kind == "fold" && n % 2 == 1 {
+                                    T::from_i(40)
+                                } else {
+                                    T::MINV
+                                }
+                            }
+                        };
+                        let mut regs: Vec<Vec<T>> = vec![];
+                        let r = hcommon::catch(|| {
+                            run_isa(w, FoldCase { kind, op, xs: &xs, init, regs: &mut regs });
+                        });
+                        let mut fail: Option<String> = None;
+                        let ans = match r {
+                            Err(m) => {
+                                fail = Some(format!("panic {m}"));
+                                format!("panic {m}")
+                            }
+                            Ok(()) => {
+                                // scalar reference: horizontal reduction must equal the plain fold over
+                                // exactly the slice elements (and the start value, once per lane)
+                                if pair {
+                                    let mn = regs[0].iter().fold(T::MAXV, |a, &b| smin(a, b));
+                                    let mx = regs[1].iter().fold(T::MINV, |a, &b| smax(a, b));
+                                    let emn = xs.iter().fold(T::MAXV, |a, &b| smin(a, b));
+                                    let emx = xs.iter().fold(T::MINV, |a, &b| smax(a, b));
+                                    if mn != emn || mx != emx {
+                                        fail = Some(format!(
+                                            "{kind} (min,max) over {n} {} elements gives ({:?},{:?}), scalar fold gives ({:?},{:?})",
+                                            REG[regime], mn, mx, emn, emx
+                                        ));
+                                    }
+                                } else if kind == "fold" {
+                                    // exact per-lane reference
+                                    let mut lanes = vec![init; v];
+                                    for (i, &x) in xs.iter().enumerate() {
+                                        lanes[i % v] = sop(op, lanes[i % v], x);
+                                    }
+                                    if regs[0] != lanes {
+                                        fail = Some(format!(
+                                            "fold {op} over {n} {} elements: lanes {:?}, scalar lane fold gives {:?}",
+                                            REG[regime], regs[0], lanes
+                                        ));
+                                    }
+                                } else {
+                                    let neutral = match op {
+                                        "sum" => T::from_i(0),
+                                        "min" => T::MAXV,
+                                        _ => T::MINV,
+                                    };
+                                    let got = regs[0].iter().fold(neutral, |a, &b| sop(op, a, b));
+                                    let want = xs.iter().fold(neutral, |a, &b| sop(op, a, b));
+                                    if got != want {
+                                        fail = Some(format!(
+                                            "{kind} {op} over {n} {} elements reduces to {:?}, scalar fold gives {:?}",
+                                            REG[regime], got, want
+                                        ));
+                                    }
+                                }
+                                regs.iter().map(|r| hcommon::join(r.iter().map(|x| x.show()), ",")).collect::<Vec<_>>().join(";")
+                            }
+                        };
+                        let xs_s = if xs.is_empty() { "e".to_string() } else { hcommon::join(xs.iter().map(|x| x.show()), ",") };
+                        let req = format!(
+                            "{}fold {} {} {} {} {} ty={} isa={} data={}",
+                            if model { "" } else { "# " },
+                            kind,
+                            v,
+                            if pair { "min" } else { op },
+                            init.show(),
+                            xs_s,
+                            T::NAME,
+                            ISA_NAMES[w],
+                            REG[regime]
+                        );
+                        out.bucket(&format!("fold_{}_{}_{}", kind, T::NAME, ISA_NAMES[w]));
+                        out.case(&req, &ans, fail.as_deref(), n > v && n % v != 0);
+                    }
+                }
+            }
+        }
+    }
+}
+
+/// rten-vecmath reductions under every ISA, every length 0..=4v+3, sign regimes for which the
+/// zero padding of the tail vector is not neutral.
+fn vecmath_reductions(out: &mut Out, rng: &mut Rng) {
+    use rten_vecmath as vm;
+    const REG: [&str; 3] = ["pos", "neg", "mixed"];
+    for w in 0..3 {
+        if !isa_available(w) {
+            continue;
+        }
+        let v = lanes_of::<f32>(w);
+        for regime in 0..3 {
+            for n in 0..=(9 * v + 3) {
+                let xs = fold_data::<f32>(rng, n, regime);
+                let mut fails: Vec<String> = vec![];
+                let mut chk = |name: &str, got: Result<Vec<f32>, String>, want: Vec<f32>, tol: f32| match got {
+                    Err(m) => fails.push(format!("{name}: isa={} panicked: {m}", ISA_NAMES[w])),
+                    Ok(g) => {
+                        let ok = g.len() == want.len()
+                            && g.iter().zip(&want).all(|(a, b)| fbits(*a) == fbits(*b) || (a - b).abs() <= tol * (1.0 + b.abs()));
+                        if !ok {
+                            fails.push(format!("{name} over {n} {} elements under {}: {:?}, scalar reference {:?}", REG[regime], ISA_NAMES[w], g, want));
+                        }
+                    }
+                };
+                let mn = xs.iter().fold(f32::INFINITY, |a, &b| a.min(b));
+                let mx = xs.iter().fold(f32::NEG_INFINITY, |a, &b| a.max(b));
+                chk(
+                    "MinMax",
+                    hcommon::catch(|| {
+                        let (a, b) = run_isa(w, vm::MinMax::new(&xs)).unwrap();
+                        vec![a, b]
+                    }),
+                    vec![mn, mx],
+                    0.0,
+                );
+                chk("MaxNum", hcommon::catch(|| vec![run_isa(w, vm::MaxNum::new(&xs[..])).unwrap()]), vec![mx], 0.0);
+                chk("MinNum", hcommon::catch(|| vec![run_isa(w, vm::MinNum::new(&xs[..])).unwrap()]), vec![mn], 0.0);
+                let s: f64 = xs.iter().map(|&x| x as f64).sum();
+                let sq: f64 = xs.iter().map(|&x| (x as f64) * (x as f64)).sum();
+                let sa: f64 = xs.iter().map(|&x| (x as f64).abs()).sum();
+                chk("Sum", hcommon::catch(|| vec![run_isa(w, vm::Sum::new(&xs)).unwrap()]), vec![s as f32], 1e-6);
+                chk("SumSquare", hcommon::catch(|| vec![run_isa(w, vm::SumSquare::new(&xs)).unwrap()]), vec![sq as f32], 1e-6);
+                chk("SumAbs", hcommon::catch(|| vec![run_isa(w, vm::SumAbs::new(&xs)).unwrap()]), vec![sa as f32], 1e-6);
+                if n > 0 {
+                    // inputs around -100: a zero leaking into the max pass makes every exp underflow
+                    let xsm: Vec<f32> = xs.iter().map(|&x| if regime == 1 { x * 0.2 - 95.0 } else { x * 0.1 }).collect();
+                    let m = xsm.iter().fold(f64::NEG_INFINITY, |a, &b| a.max(b as f64));
+                    let e: Vec<f64> = xsm.iter().map(|&x| (x as f64 - m).exp()).collect();
+                    let es: f64 = e.iter().sum();
+                    let want: Vec<f32> = e.iter().map(|&x| (x / es) as f32).collect();
+                    let got = hcommon::catch(|| {
+                        let mut d: Vec<MaybeUninit<f32>> = vec![MaybeUninit::new(0.0); xsm.len()];
+                        run_isa(w, vm::Softmax::new(&xsm, &mut d)).unwrap().to_vec()
+                    });
+                    match got {
+                        Err(mm) => fails.push(format!("Softmax panicked: {mm}")),
+                        Ok(g) => {
+                            if let Some(i) = (0..n).find(|&i| !((g[i] - want[i]).abs() <= 3e-6)) {
+                                fails.push(format!("Softmax over {n} {} elements under {}: out[{i}] = {:e}, reference {:e}", REG[regime], ISA_NAMES[w], g[i], want[i]));
+                            }
+                        }
+                    }
+                }
+                out.bucket(&format!("vmred_{}_{}", ISA_NAMES[w], REG[regime]));
+                out.case(
+                    &format!("# vecmath reductions n={n} isa={} data={} x={}", ISA_NAMES[w], REG[regime], hcommon::join(xs.iter().map(|x| format!("{x:?}")), ",")),
+                    "-",
+                    fails.first().map(|s| s.as_str()),
+                    n > v && n % v != 0,
+                );
+            }
+        }
+    }
+}
+
 fn main() {
     let args = hcommon::parse_args();
     hcommon::quiet_panics();
@@ -1767,6 +2083,9 @@ fn run(args: &Args) {
     mask_cases::<i8>(&mut out);
     mask_cases::<u8>(&mut out);
     writer_cases(&mut out, &mut rng, &mut gdst, if t { 20000 } else { 2000 });
+    fold_cases::<i32>(&mut out, &mut rng, true);
+    fold_cases::<f32>(&mut out, &mut rng, false);
+    vecmath_reductions(&mut out, &mut rng);
 
     // (3) float primitives and vecmath ops across ISAs
     float_prim_cases(&mut out, &mut rng, if t { 3000 } else { 300 });
@@ -1777,7 +2096,7 @@ fn run(args: &Args) {
          boundary-biased 64-lane samples for i16/u16/i32; one-vector layout ops per ISA; every loop (simd_map in-place/src-dst, \
          simd_apply<1|2|4>, Iter::fold, simd_iter_pad, fold_unroll<4>, SliceWriter copy) for 6 element types, every length \
          0..=4v+3 (9v+3 for unroll 4), buffer flush to the end and to the start of a guard-paged region; first_n_mask for every n<=v; \
-         random SliceWriter call sequences; f32 primitives and rten-vecmath ops on special-value-biased vectors under every ISA; \
+         random SliceWriter call sequences; Iter::fold / fold_unroll<2|4> / fold_n / fold_n_unroll<2,2|4> (sum, min, max, min+max; i32 against the Lean fold model, f32 against the scalar fold) and rten-vecmath MinMax/MaxNum/MinNum/Sum/SumSquare/SumAbs/Softmax under every ISA for every length 0..=4v+3 (9v+3 for unroll 4) with all-positive, all-negative and mixed data; f32 primitives and rten-vecmath ops on special-value-biased vectors under every ISA; \
          non-trivial = has a masked tail after at least one full vector / at least one whole vector of data",
     );
 }
